@@ -10,5 +10,7 @@ A) one R10-C16-1 A 1 C16; one R10-C16-2 A 2 C16; one R10-C02-3 A 3 C02; one R10-
 B) one R10-C03-1 B 1 C03; one R10-C03-2 B 2 C03; one R10-C12-3 B 3 C12; one R10-C12-4 B 4 C12;;
 C) one R10-C09-1 C 1 C09; one R10-C09-2 C 2 C09; one R10-C05-3 C 3 C05; one R10-C05-4 C 4 C05;;
 D) one R10-C01-1 D 1 C01; one R10-C01-2 D 2 C01; one R10-C08-3 D 3 C08; one R10-C08-4 D 4 C08;;
+E) one R10-C07-1 E 1 C07; one R10-C07-2 E 2 C07; one R10-C10-3 E 3 C10; one R10-C10-4 E 4 C10;;
+F) one R10-C11-1 F 1 C11; one R10-C11-2 F 2 C11; one R10-C06-3 F 3 C06; one R10-C06-4 F 4 C06;;
 esac
 echo ALLDONE $1
